@@ -155,7 +155,10 @@ Definition space_list_check (st : pstate) (under_group : option nat) : res bool 
       let is_group_value := (definition_eqb (n_def ln) D_Group || definition_eqb (n_def ln) D_NestedExpression)
                             && negb (opt_nat_eqb (last_left st) under_group) in
       let is_suffix_value := secondary_eqb (n_sec ln) S_UnarySuffix in
-      Ok (if is_value || is_group_value || is_suffix_value then true else check_for_list st)
+      let is_block_value := definition_eqb (n_def ln) D_SideEffect
+                            && match n_left ln with Some _ => true | None => false end
+                            && negb (opt_nat_eqb (last_left st) under_group) in
+      Ok (if is_value || is_group_value || is_suffix_value || is_block_value then true else check_for_list st)
     end
   end.
 
@@ -208,6 +211,7 @@ Definition step (ntoks : nat) (i : nat) (tok : token_type) (st0 : pstate) : res 
                 if definition_eqb (n_def n) D_SideEffect
                    && negb (opt_nat_eqb (last_left st0) under_group)
                    && match n_parent n with Some _ => true | None => false end
+                   && match n_left n with None => true | Some _ => false end
                 then
                   Ok (n_parent n, prev_sec st0, prev_sig st0)
                 else Ok (last_left st0, prev_sec st0, prev_sig st0)
